@@ -175,7 +175,7 @@ pub const PROGRAMS: &[&str] = &[
 ];
 
 pub fn gen(tier: Tier, r: &mut Rng, emit: &mut dyn FnMut(String)) {
-    let n = if tier == Tier::Quick { 60 } else { 400 };
+    let n = if tier == Tier::Quick { 40 } else { 400 };
     let o = GenOpts { block_scalars: true, comments: true, breaks: false, anchors: false, multidoc: false, max_depth: 3 };
     let mut made = 0;
     let mut attempts = 0;
